@@ -162,6 +162,7 @@ func (c *Client) authenticate() error {
 		return fmt.Errorf("authentication failed: %+v", messages[0])
 	}
 
+	var level AuthLevel
 	switch v := messages[0].Value.(type) {
 	default:
 		c.isAuthenticated = false
@@ -172,14 +173,16 @@ func (c *Client) authenticate() error {
 			c.isAuthenticated = false
 			return fmt.Errorf("authentication failed: %+v", AuthLevel(v))
 		}
+		level = AuthLevel(v) //nolint:gosec // only used for logging
 	case uint8:
 		if v == uint8(AUTH_LEVEL_NO_AUTH) {
 			c.isAuthenticated = false
 			return fmt.Errorf("authentication failed: %+v", AuthLevel(v))
 		}
+		level = AuthLevel(v)
 	}
 	c.isAuthenticated = true
-	Log.Infof("successfully authenticated (level: %s)", AuthLevel(messages[0].Value.(uint8)))
+	Log.Infof("successfully authenticated (level: %s)", level)
 	return nil
 }
 
